@@ -3,4 +3,5 @@ import LettreVerif.Props.C08
 #print axioms LV.C08.capFix_on
 #print axioms LV.C08.dead_connection_not_reused
 #print axioms LV.C08.live_connection_probed_first
+#print axioms LV.C08.failed_probe_closes
 #print axioms LV.C08.failed_connection_closed
